@@ -326,9 +326,12 @@ theorem solo_recv_empty' (s : St) (t : Nat) (ht : s.thr t = .idle) (he : s.deqHe
   simp [recvSolo, run, apply, step, ht, he, hemp]
   intro u hu; simp [hu]
 
-theorem solo_len (s : St) (t : Nat) (ht : s.thr t = .idle) :
-    (run s [.len t, .step t]).thr t = .done (.len (s.tail - s.head)) := by
-  simp [run, apply, step, ht]
+/-- a length query nothing overlaps answers `tail - head` (the two loads see one state; the window `tail - head ≤ N < 2^32`
+    of the invariant makes the `u32` difference exact) -/
+theorem solo_len (s : St) (t : Nat) (ht : s.thr t = .idle) (h1 : s.head ≤ s.tail) (h2 : s.tail - s.head < 4294967296) :
+    (run s [.len t, .step t, .step t]).thr t = .done (.len (s.tail - s.head)) := by
+  simp [run, apply, step, ht, U32.wsub, U32.wrap]
+  omega
 
 theorem solo_reserve_ok (s : St) (t : Nat) (ht : s.thr t = .idle) (he : s.enqTail = s.tail)
     (hroom : s.tail - s.head < s.N) :
